@@ -70,7 +70,7 @@ def run_dropout(p, hist):
 # ----------------------------------------------------------------------------- batch norm
 def bn_configs():
     out = []
-    for mom in (0.1, 0.5, 1.0, None):
+    for mom in (0.1, 0.5, 1.0, 0.0, None):
         for affine in (True, False):
             for track in (True, False):
                 for rank in (2, 3, 4):
@@ -217,7 +217,7 @@ def run(tier, seed):
     cov = {"states": nd + nb, "transitions": nd + nb - 4 - len(cfgs), "traces_validated_against_impl": r["evaluations"],
            "evaluations": r["evaluations"], "distinct_nontrivial": r["distinct_nontrivial"], "samples": r["samples"], "exhaustive": True,
            "rule": f"Dropout p in {{0,.3,.5,1}} x ALL {11 ** dd} histories of length {dd} over {{train, eval, forward with each of the 8 "
-                   f"keep/drop answer vectors, forward at the boundary u=p}}; BatchNorm: {len(cfgs)} configurations (momentum {{.1,.5,1,None}} x "
+                   f"keep/drop answer vectors, forward at the boundary u=p}}; BatchNorm: {len(cfgs)} configurations (momentum {{.1,.5,1,0,None}} x "
                    f"affine x track_running_stats x input rank 2/3/4) x ALL {4 ** bd} histories of length {bd} over {{train, eval, forward(A: 2 "
                    "samples), forward(B: 3 samples)}} in lock-step with torch.nn.BatchNorm1d/2d (float64; float32 layers one level shallower, "
                    "incl. dtype of outputs and buffers): output, running_mean, "
